@@ -548,6 +548,100 @@ fn reassembly_case(ctx: &mut Ctx, ty: Ty, v: &MVal) {
     }
 }
 
+// ---------------------------------------------------------------------------------------------
+// phase 4: protected byte strings whose content is *not* (just) a header map
+
+/// Whatever a decoder decides about such a byte string - that is C08 / C09's subject - if it accepts
+/// the structure, the bytes it retains and writes are the bytes it received.
+fn odd_protected_case(ctx: &mut Ctx, ty: Ty, v: &MVal) {
+    let mut v = v.clone();
+    let n = model::prot_positions(&v).iter().filter(|(_, b)| b.is_some()).count();
+    if n == 0 {
+        return;
+    }
+    // only top-level positions of a carrier are rewritten (nested ones live inside other retained
+    // byte strings, whose content would have to change with them)
+    let mut k = 0usize;
+    let target = ctx.rng.below(n);
+    let form = ctx.rng.below(9);
+    let mut planted: Option<(Vec<u8>, &'static str)> = None;
+    let mut depth_guard = 0usize;
+    let extra = ctx.rng.bytes(2);
+    model::for_each_prot(&mut v, &mut |p: &mut crate::model::MProt| {
+        depth_guard += 1;
+        if let Some(b) = &p.bytes {
+            if k == target && planted.is_none() {
+                let map = if b.is_empty() { vec![0xa0] } else { b.clone() };
+                let wrap = |head: &[u8], inner: &[u8]| -> Vec<u8> {
+                    let mut o = head.to_vec();
+                    o.extend_from_slice(inner);
+                    o
+                };
+                let bstr = |inner: &[u8]| -> Vec<u8> {
+                    let mut o = Vec::new();
+                    rcbor::put_head(&mut o, 2, inner.len() as u64, &mut Style::canonical());
+                    o.extend_from_slice(inner);
+                    o
+                };
+                let (nb, name): (Vec<u8>, &'static str) = match form {
+                    0 => (wrap(&[0xd9, 0xd9, 0xf7], &map), "55799(map)"),
+                    1 => (wrap(&[0xd8, 0x18], &bstr(&map)), "24(bstr(map))"),
+                    2 => (bstr(&map), "bstr(map)"),
+                    3 => (wrap(&[0xc6], &map), "6(map)"),
+                    4 => (wrap(&map, &extra), "map followed by two bytes"),
+                    5 => (wrap(&[0x81], &map), "[map]"),
+                    6 => (wrap(&[0xd9, 0xd9, 0xf7, 0xd9, 0xd9, 0xf7], &map), "55799(55799(map))"),
+                    7 => (wrap(&[0xda, 0x00, 0x00, 0xd9, 0xf7], &map), "55799 in a 4-byte head (map)"),
+                    _ => (wrap(&[0xd8, 0x3d], &map), "61(map)"),
+                };
+                p.bytes = Some(nb.clone());
+                planted = Some((nb, name));
+            }
+            k += 1;
+        }
+    });
+    let (nb, name) = match planted {
+        Some(x) => x,
+        None => return,
+    };
+    let bytes = rcbor::det(&model::encode(&v));
+    // a position nested inside another retained byte string does not reach the wire (the outer bytes
+    // are emitted as they are): only positions that do are judged
+    let mut needle0 = Vec::new();
+    rcbor::put_head(&mut needle0, 2, nb.len() as u64, &mut Style::canonical());
+    needle0.extend_from_slice(&nb);
+    if !bytes.windows(needle0.len()).any(|w| w == &needle0[..]) {
+        ctx.count("odd-protected-not-on-the-wire");
+        return;
+    }
+    ctx.eval();
+    ctx.count(&format!("odd-protected:{}", name));
+    let c = match capi::from_slice(ty, &bytes) {
+        Ok(c) => c,
+        Err(_) => {
+            ctx.count("odd-protected-rejected");
+            return;
+        }
+    };
+    ctx.count("odd-protected-accepted");
+    let wit = || J::obj(vec![("type", J::Str(ty.name())), ("form", J::s(name)), ("hex", J::Str(hex(&bytes)))]);
+    // retained: some position of the decoded value must hold exactly the planted bytes
+    let held = positions_of(&c).map(|ps| ps.iter().any(|(_, b)| b.as_deref() == Some(&nb[..]))).unwrap_or(true);
+    if !held {
+        ctx.violation(&format!("C02/odd-protected-not-retained/{}", ty.name()), format!("a {} whose protected byte string holds {} is accepted, but the retained bytes are not the received ones", ty.name(), name), wit());
+        return;
+    }
+    // written back: the encoding contains the planted bytes as a byte string
+    if let Ok(out) = capi::to_vec(c) {
+        let mut needle = Vec::new();
+        rcbor::put_head(&mut needle, 2, nb.len() as u64, &mut Style::canonical());
+        needle.extend_from_slice(&nb);
+        if !out.windows(needle.len()).any(|w| w == &needle[..]) {
+            ctx.violation(&format!("C02/odd-protected-not-reemitted/{}", ty.name()), format!("a {} whose protected byte string holds {} is accepted, but re-encoding does not write the received bytes", ty.name(), name), wit());
+        }
+    }
+}
+
 impl Check for C02 {
     fn id(&self) -> &'static str {
         "C02"
@@ -558,6 +652,7 @@ impl Check for C02 {
             Phase { name: "carriers of every type with independently styled protected headers at every position (nesting <= 3)", cases: scale(if q { 96000 } else { 500000 }, b), exhaustive: false },
             Phase { name: "the five empty-header forms (40, 41a0, 42bfff, 42b800, built-canonical) x every position class", cases: 12 * 5, exhaustive: true },
             Phase { name: "the same header content at every position of a carrier, each position in its own encoding (equal views, different bytes)", cases: scale(if q { 4000 } else { 100000 }, b), exhaustive: false },
+            Phase { name: "protected byte strings whose content is a tagged map, a wrapped map, a map with trailing bytes ...: if the structure is accepted at all, the received bytes are retained and re-emitted", cases: scale(if q { 12000 } else { 100000 }, b), exhaustive: false },
             Phase { name: "decoded signatures, recipients, counter signatures and supplementary information handed to the adders / setters of the enclosing structure's builder, then encoded", cases: scale(if q { 12000 } else { 100000 }, b), exhaustive: false },
         ]
     }
@@ -571,6 +666,12 @@ impl Check for C02 {
                 ctx.sample(|| J::obj(vec![("type", J::Str(ty.name())), ("positions", J::Arr(model::prot_positions(&v).iter().take(6).map(|(p, b)| J::Str(format!("{} = {}", p, b.as_ref().map(|x| hex(x)).unwrap_or_default()))).collect())), ("outcome", J::s("retained, re-emitted and placed into structures bit for bit"))]));
             }
             3 => {
+                const TOP: [Ty; 9] = [Ty::Sign1, Ty::Sign, Ty::Signature, Ty::Mac, Ty::Mac0, Ty::Encrypt, Ty::Encrypt0, Ty::Recipient, Ty::SuppPub];
+                let ty = TOP[(idx % 9) as usize];
+                let v = gen::gen_mval(&mut ctx.rng, ty, &GenOpts { max_depth: 1, ..GenOpts::wire() });
+                odd_protected_case(ctx, ty, &v);
+            }
+            4 => {
                 const RE: [Ty; 10] = [Ty::Sign, Ty::Mac, Ty::Encrypt, Ty::Recipient, Ty::Kdf, Ty::Header, Ty::Signature, Ty::Sign1, Ty::Mac0, Ty::Encrypt0];
                 let ty = RE[(idx % 10) as usize];
                 let v = gen::gen_mval(&mut ctx.rng, ty, &o);
